@@ -136,10 +136,56 @@ def int_points(dim, k, npts, lo=None, hi=None, boundary_out=False, keep=None):
     return inside, outside
 
 
+def boundary_points(dim, lo=None, hi=None):
+    """Points exactly ON the finite bounds of the box prod_i [lo_i, hi_i] (None / inf = unbounded):
+      faces  : for every coordinate i and every finite bound of it, the point with x_i = that bound and all other
+               coordinates strictly inside (midpoint of a bounded interval, bound +- 1 of a half-bounded one, 0 otherwise);
+      corners: every coordinate that has a finite bound sits on one - all 2^m choices for m <= 3 bounded coordinates,
+               otherwise all-lower, all-upper and the two alternating lower/upper patterns.
+    -> list of (at, kind, x), at in {"lower", "upper", "mixed"}: which kind of bounds the point touches."""
+    lo_v = np.full(dim, -np.inf) if lo is None else np.broadcast_to(np.asarray(lo, float), (dim,)).copy()
+    hi_v = np.full(dim, np.inf) if hi is None else np.broadcast_to(np.asarray(hi, float), (dim,)).copy()
+    base = np.zeros(dim)
+    for i in range(dim):
+        l, h = np.isfinite(lo_v[i]), np.isfinite(hi_v[i])
+        base[i] = 0.5 * (lo_v[i] + hi_v[i]) if (l and h) else (lo_v[i] + 1.0 if l else (hi_v[i] - 1.0 if h else 0.0))
+    pts = []
+
+    def add(at, kind, x):
+        if not any(np.array_equal(x, y) for _, _, y in pts):
+            pts.append((at, kind, x))
+    for i in range(dim):
+        if np.isfinite(lo_v[i]):
+            x = base.copy(); x[i] = lo_v[i]
+            add("lower", "face-low%d" % i, x)
+    for i in range(dim):
+        if np.isfinite(hi_v[i]):
+            x = base.copy(); x[i] = hi_v[i]
+            add("upper", "face-high%d" % i, x)
+    J = [i for i in range(dim) if np.isfinite(lo_v[i]) or np.isfinite(hi_v[i])]
+    if J:
+        choices = [[c for c, b in (("l", lo_v[i]), ("h", hi_v[i])) if np.isfinite(b)] for i in J]
+        if len(J) <= 3:
+            import itertools
+            patterns = list(itertools.product(*choices))
+        else:
+            patterns = [tuple(ch[0] for ch in choices), tuple(ch[-1] for ch in choices),
+                        tuple(ch[j % 2 if len(ch) > 1 else 0] for j, ch in enumerate(choices)),
+                        tuple(ch[(j + 1) % 2 if len(ch) > 1 else 0] for j, ch in enumerate(choices))]
+        for pat in patterns:
+            x = base.copy()
+            for i, c in zip(J, pat):
+                x[i] = lo_v[i] if c == "l" else hi_v[i]
+            at = "lower" if all(c == "l" for c in pat) else ("upper" if all(c == "h" for c in pat) else "mixed")
+            add(at, "corner-" + "".join(pat), x)
+    return pts
+
+
 def ipts(dim, k, npts, **kw):
-    """keyword arguments for Case(...) with the integer-valued points"""
+    """keyword arguments for Case(...) with the integer-valued points and, for a support with finite bounds, the
+    points exactly on those bounds (faces and corners)"""
     ins, out = int_points(dim, k, npts, **kw)
-    return {"int_inside": ins, "int_outside": out}
+    return {"int_inside": ins, "int_outside": out, "boundary": boundary_points(dim, kw.get("lo"), kw.get("hi"))}
 
 
 @contextlib.contextmanager
